@@ -1162,7 +1162,10 @@ func (k *Kernel) checkVotingPrecommitViewShift(ctx context.Context, s *kState) e
 
 // saveCurrentCommittingHeader saves s.CommittingHeader to the header store.
 func (k *Kernel) saveCurrentCommittingHeader(ctx context.Context, s *kState) error {
-	proof := s.Voting.PrevCommitProof
+	// The store may retain the value we pass it, and the voting view's
+	// PrevCommitProof map is cleared and reused when views are reset,
+	// so the store must get its own copy.
+	proof := s.Voting.PrevCommitProof.Clone()
 
 	// TODO: gassert: confirm the voting proof is sufficient.
 
